@@ -293,3 +293,54 @@ def expand_with_scope(text, macro_def_text):
         new = '%s.symbol_table.enter_scope(%s);\n%s\n%s.symbol_table.exit_scope();' % (ctxt, scope, body, ctxt)
         text = text[:m.start()] + new + text[end:]
         n += 1
+
+
+# ---------------------------------------------------------------------------------------------
+# D20: `match X { "a" => E1, "b" | "c" => E2, _ => D }` on a `&str` scrutinee  ->
+#      `if X == "a" { E1 } else if X == "b" || X == "c" { E2 } else { D }`.
+# String-literal patterns compare by value (str: PartialEq), arms are tried in order: this is the
+# definition of the match.  (Verus accepts the match form but gives the later arms no negative
+# information, so completeness of a keyword table cannot be proved on it.)
+_STR_MATCH = re.compile(r'\bmatch\s+([A-Za-z_][A-Za-z0-9_]*)\s*\{\s*"')
+
+
+def desugar_str_match(text):
+    log = []
+    while True:
+        rf = RustFile('<fn>', text)
+        code = rf.code
+        m = None
+        for mm in _STR_MATCH.finditer(text):
+            if code[mm.start()]:
+                m = mm
+                break
+        if m is None:
+            return text, log
+        scrut = m.group(1)
+        bo = text.index('{', m.start())
+        bc = _match_close(text, code, bo)
+        arms = _split_args(text, code, bo + 1, bc)
+        conds = []
+        default = None
+        for a, b in arms:
+            arm = text[a:b].strip()
+            mm = re.match(r'^((?:"(?:[^"\\]|\\.)*"\s*\|\s*)*"(?:[^"\\]|\\.)*")\s*=>\s*(.*)$', arm, re.S)
+            if mm:
+                if default is not None:
+                    raise NoRule('arm after the default arm')
+                lits = re.findall(r'"(?:[^"\\]|\\.)*"', mm.group(1))
+                conds.append((lits, mm.group(2).strip()))
+                continue
+            md = re.match(r'^_\s*=>\s*(.*)$', arm, re.S)
+            if md and default is None:
+                default = md.group(1).strip()
+                continue
+            raise NoRule('str match arm %r' % arm[:40])
+        if default is None or not conds:
+            raise NoRule('str match without default arm')
+        parts = []
+        for lits, rhs in conds:
+            parts.append('if %s { %s }' % (' || '.join('%s == %s' % (scrut, l) for l in lits), rhs))
+        new = ' else '.join(parts) + ' else { %s }' % default
+        log.append('D20 match on &str `%s`: %d literal arm(s) -> if / else-if chain' % (scrut, len(conds)))
+        text = text[:m.start()] + new + text[bc + 1:]
